@@ -600,7 +600,20 @@ func monC17cur(hr *HistRun) string {
 					m[k] = v
 				}
 				txm[*r.TxID] = m
-				for a, kvs := range o.AccMeta {
+				if o.Kind == "create" && o.Script && !r.Hit {
+					// metadata set by the script and at creation: the script's keys, the request's over them
+					want := map[string]string{}
+					for _, kv := range o.SMeta {
+						want[kv.K] = kv.V
+					}
+					for _, kv := range o.Meta {
+						want[kv.K] = kv.V
+					}
+					if fmt.Sprint(sortKV(want)) != fmt.Sprint(sortKV(m)) {
+						return fmt.Sprintf("step %d: transaction %d created by a script setting %v with request metadata %v carries %v [script-tx-meta]", i, *r.TxID, o.SMeta, o.Meta, sortKV(m))
+					}
+				}
+				for a, kvs := range o.accMetaAll() {
 					if acm[a] == nil {
 						acm[a] = map[string]string{}
 					}
@@ -669,7 +682,7 @@ func monC18(hr *HistRun) string {
 					touch(p.Source, eff, o.Now)
 					touch(p.Destination, eff, o.Now)
 				}
-				for a := range o.AccMeta {
+				for a := range o.accMetaAll() {
 					touch(a, eff, o.Now)
 				}
 			case o.Kind == "setmeta" && o.IsAcc:
